@@ -266,7 +266,7 @@ class Gen(object):
         if not key_rules and not small and r.random() < 0.07:
             rules['rename'] = r.choice(['n1', 'n2', 7] + [s for s in siblings][:2])
         if not key_rules and not small and r.random() < 0.06:
-            rules['rename_handler'] = self.coercer(('prefix_x', 'to_str', 'to_int', 'ident', 'fail', 'failrt'))
+            rules['rename_handler'] = self.coercer(('prefix_x', 'to_str', 'to_int', 'ident', 'fail', 'failrt', 'wrap'))    # wrap: an unhashable new name
         if rules.get('type') == 'dict' and 'schema' in rules and r.random() < (0.6 if self.purge_bias else 0.25):
             rules['purge_unknown'] = r.choice([True, False])
         if r.random() < 0.08:
